@@ -240,6 +240,9 @@ def check_C05(ctx, rep):
 
 
 def check_C06(ctx, rep):
+    for fn0, op0 in (('nfa_union', 'union'), ('nfa_concatenation', 'concat'), ('nfa_repetition', 'star')):
+        small_models2.check_nfa_operation(ctx, rep, ctx.prog.func('nfa_algorithms.' + fn0), op0)
+    rep.clauses_decided.append('nfa_union / nfa_concatenation / nfa_repetition return a valid NFA with exactly the words up to length 4 of the union / concatenation / iteration on model NFAs with several final states that have different ways on, a final initial state, colliding state names and different epsilon symbols; operands untouched (M17, finite model)')
     rep.clauses_decided += ['state names of one translation come from one private generator or a fresh-name provider (R-FRESH)',
                             'GNFA start/accept states are fresh (R-FRESH)', 'epsilon consistency of the building blocks (R-EPS)',
                             'building blocks do not touch their operands (R-EFFECT)',
@@ -418,6 +421,8 @@ def check_C11(ctx, rep):
 
 
 def check_C12(ctx, rep):
+    small_models2.check_subset_name_readers(ctx, rep, ctx.prog.func('notebook_nfa2dfa.check_nfa_to_dfa_answer'), ctx.prog.func('dfa.print_state_set'))
+    rep.clauses_decided.append('the helper of the NFA-to-DFA checker that decodes subset names inverts print_state_set on the empty set, a singleton and larger sets (R-IO.inv, finite model)')
     rep.clauses_decided += ['no recorded error is dropped (K1)', 'OK and an error never lie on one path (K2)', 'handlers report errors (K3)',
                             'answer/reference roles and polarity of the language comparison (K4)', 'minimal counterexample (K5)',
                             'same bound for both languages (K6)', 'state limit polarity (K7)']
@@ -475,6 +480,8 @@ STATE_NAME_CHAINS = [
 
 
 def check_C13(ctx, rep):
+    small_models2.check_subset_name_readers(ctx, rep, ctx.prog.func('notebook_nfa2dfa.check_nfa_to_dfa_answer'), ctx.prog.func('dfa.print_state_set'))
+    rep.clauses_decided.append('the helper of the NFA-to-DFA checker that decodes subset names inverts print_state_set on the empty set, a singleton and larger sets (R-IO.inv, finite model)')
     rep.clauses_decided += ['every template command has a branch of matching arity and every checker call resolves with matching arity (R-DISPATCH c)',
                             'printed keywords, state-name formats, operator tokens, symbol classes and the CFG epsilon spelling are inside what the reading parser accepts (R-IO a/c/d/e)']
     rep.clauses_decided += ['the structural demands of the reverse checker (fresh initial state, accepting set {D.q0}) are met by dfa_reverse on every path (R-AGREE.reverse)']
@@ -639,6 +646,9 @@ def check_C15(ctx, rep):
 
 
 def check_C18(ctx, rep):
+    for fn0, op0 in (('nfa_union', 'union'), ('nfa_concatenation', 'concat'), ('nfa_repetition', 'star')):
+        small_models2.check_nfa_operation(ctx, rep, ctx.prog.func('nfa_algorithms.' + fn0), op0)
+    rep.clauses_decided.append('nfa_union / nfa_concatenation / nfa_repetition return a valid NFA with exactly the words up to length 4 of the union / concatenation / iteration on model NFAs with several final states that have different ways on, a final initial state, colliding state names and different epsilon symbols; operands untouched (M17, finite model)')
     rep.clauses_decided += ['operands untouched (R-EFFECT a)', 'the introduced state is fresh for the union of the operand state sets (R-FRESH)',
                             'the result is built with the epsilon its keys use and operand epsilons are translated (R-EPS)',
                             'accepting set and alphabet of the result combine both operands as specified (M1)', 'shared default generators inventoried (R-STATE c)']
